@@ -9,7 +9,7 @@ What is regenerated from the working tree on every run (fail closed):
                       and (some owning class has NO_GENERATION False, or the code is NEXT_HOP
                       (include_nexthop=True path), or no class owns the code (kept: fail towards "rendered"))
   * the code points 128..255 that response/text.py `oneline` keeps verbatim (obtained by calling it on each
-    one-character string; every other one must come out as repr(character)[1:-1], and ASCII must behave as
+    one-character string; every other one must come out as ascii(character)[1:-1] (= repr(...)[1:-1] when repr escapes it), and ASCII must behave as
     the model says: 32..126 kept, the rest escaped)
 Co-presence: an AttributeCollection is a dict keyed by attribute code, `_generate_json` walks sorted(keys());
 any two distinct codes can be present in one decoded UPDATE (the only pair the decoder folds is
@@ -96,7 +96,7 @@ def reflect(repo: str) -> dict:
     latin1 = []
     for c in range(256):
         got = oneline(chr(c))
-        kept, escaped = chr(c), repr(chr(c))[1:-1]
+        kept, escaped = chr(c), ascii(chr(c))[1:-1]  # = repr(...)[1:-1] for every character repr escapes
         if c < 128:
             want = kept if 32 <= c <= 126 else escaped
             if got != want:
